@@ -18,12 +18,14 @@ theorem skel_handleResponse_shape :
   "if req.retCh != nil && frame.Result != nil",
   "  // output is channel var chid uint64",
   "  if err := json.Unmarshal(frame.Result, &chid); err != nil",
-  "    return",
-  "  chanCtx, chHnd := req.retCh()",
-  "  c.chanHandlersLk.Lock()",
-  "  c.chanHandlers[chid] = &chanHandler{cb: chHnd}",
-  "  c.chanHandlersLk.Unlock()",
-  "  go c.handleCtxAsync(chanCtx, frame.ID)",
+  "    frame.Error = &JSONRPCError{ Code: 1, Message: fmt.Sprintf(\"unmarshaling channel id response: %s\", err), }",
+  "    frame.Result = nil",
+  "  else",
+  "    chanCtx, chHnd := req.retCh()",
+  "    c.chanHandlersLk.Lock()",
+  "    c.chanHandlers[chid] = &chanHandler{cb: chHnd}",
+  "    c.chanHandlersLk.Unlock()",
+  "    go c.handleCtxAsync(chanCtx, frame.ID)",
   "req.ready <- clientResponse{ Jsonrpc: frame.Jsonrpc, Result: frame.Result, ID: frame.ID, Error: frame.Error, }",
   "c.inflightLk.Lock()",
   "if cur, ok := c.inflight[frame.ID]; ok && cur.ready == req.ready",
